@@ -16,13 +16,38 @@ RULE = ("per case: rule set spot|futures, 1-3 subscribed instruments, a manager 
         "with_termination_on_error(is_terminal) . with_reconnection_events . with_error_handler into the real OrderBookL2Manager::run over an OrderBookMapMulti, on a paused-clock "
         "current-thread runtime; compared per op: status, the new events the manager received, the new handler calls (by kind), totals, every managed book. thorough additionally "
         "enumerates, for both rule sets, every sequence of <= 3 frames over 9 symbols (5 genuine updates around a snapshot at id 5, Ping, junk text, Close, an unsubscribed symbol), "
-        "with and without eos, followed by a second connection with a snapshot at id 7 and one more update (1 640 cases). A case is distinct by the SHA-1 of its op lines and "
+        "with and without eos, followed by a second connection with a snapshot at id 7 and one more update (1 640 cases). On top of the N cases, N/4 cases (ids p...) from an "
+        "independent random stream have DEPTH-LIMITED REST snapshots as the code's fetchers request them (`depth k n`, n in 1..4 with <= 6 prices per side; 15 % of the "
+        "instruments of such a case keep the full depth): every snapshot of such an instrument is the venue's book at its id cut to the best n levels per side; harness and "
+        "model then also print one `lv<k>:<side>:<price> <amount>` line per price of the venue after the `book` lines, and the oracle states those lines at exactly the "
+        "prices the current snapshot covers, an admitted update wrote or the venue changed since the snapshot id (the whole-book line only when the limit cuts nothing). "
+        "The corpus holds, besides the fixed vectors of the theorems, depth-limited connections (incl. the witness of the theorems) and REST snapshots listing a price twice. "
+        "A case is distinct by the SHA-1 of its op lines and "
         "non-trivial when the implementation's observation blocks differ at least once")
 ASSUMPTIONS = [
     "the venue's contract (as for C06): every deserialised depth update of a subscribed instrument is genuine for SOME id range of that instrument's venue (which messages arrive, "
     "how often, in which order is unrestricted), every REST snapshot of a subscribed instrument is the venue's book at its lastUpdateId, strictly ordered, one initial event per "
     "instrument key; needed by pipeline_book_is_truth / every_book_is_venue_truth / truth_after_reinit only - the factorisation, the frame-invariance theorems, stale_window and "
-    "reinit_replaces_books hold for arbitrary inputs",
+    "reinit_replaces_books hold for arbitrary inputs AS STATEMENTS ABOUT THE COMPOSED MODEL (see the entry on repeated prices for where model and code part)",
+    "snapshot depth: the REST snapshot holds the best 100 levels per side only - the code's fetchers request `&limit=100` (binance/spot/l2.rs:54, futures/l2.rs:57; the harness "
+    "bypasses fetch_snapshots and feeds snapshots of declared depth 1-4 over <= 6 prices instead). 'every REST snapshot is the venue's book at its lastUpdateId' in the full-book "
+    "reading (SnapshotsGenuine in Contract) is therefore FALSE in the real wiring for an instrument deeper than 100 levels on a side, and with it the hypothesis of "
+    "pipeline_book_is_truth, every_book_is_venue_truth, every_book_is_spec_book, truth_after_reinit. The reading that holds is per price level (ContractOn / SnapshotsGenuineOn "
+    "with cover = coveredBy 100, justified by C06's truncated_snapshot_genuine_on): pipeline_book_is_truth_on / every_book_is_venue_truth_on prove 'the book holds the venue's "
+    "amount as of the id it reports' at every price that the CURRENT connection's snapshot covers (all prices of a side on which it lists fewer than `limit` levels, otherwise the "
+    "prices at least as good as its worst level) or that the venue changed since that snapshot's id; at any other price nothing is claimed and the managed book can differ "
+    "silently (truncated_snapshot_pipeline_witness: no Reconnecting, no handler call, the managed book shows no bid while the venue's best bid is the uncovered second level). "
+    "The full-depth theorems are the instance 'every price covered' (contract_is_on_everything) and apply as they stand to books of at most 100 levels per side",
+    "repeated prices in a REST snapshot: OrderBook::new only sorts, so a snapshot listing a price twice leaves a side on which the code's binary_search_by and the scan of the "
+    "C05 book model (the book component of `pipeline`) pick different levels (repeated_price_snapshot_witness: model 100:2, code 100:1). `drv_c06e model` therefore prints the "
+    "manager's cells run with C05M's model of the real binary search (Result.booksBS) - the correspondence covers such snapshots (corpus) - and "
+    "pipeline_cells_follow_the_code_search proves these cells ARE the pipeline model's books whenever every snapshot side is strictly ordered (C05's documented WFSnapshot "
+    "precondition; consistent with C05's dirty_snapshot_duplicate_price_witness). pipeline_refines_spec / pipeline_factorises describe the code under that precondition only; "
+    "the truth theorems ask SortedBook of every snapshot anyway, the oracle is silent on such a snapshot (it is no venue's book)",
+    "StreamBuilder::subscribe / init (streams/builder/mod.rs:97-112: validate, sort, dedup of the subscriptions, tokio::spawn(forward_to) into an unbounded mpsc, select_all) "
+    "sits between with_reconnection_events and with_error_handler in init_multi_order_book_l2_manager and is neither modelled nor exercised nor covered by the source "
+    "tripwire: the harness applies with_error_handler directly to the reconnecting stream (one exchange, one stream; an empty subscription list, for which the real builder "
+    "returns SubscriptionsEmpty, is run as a pipeline without instruments)",
     "no websocket message is buffered during subscription validation (Contract.noBuffered) - guaranteed for Binance as wired today because Binance::expected_responses is 1 "
     "(the validator returns right after the first response and buffers only after one); the pipeline model, the factorisation theorem and the correspondence cover buffered "
     "messages too, and buffered_update_before_snapshot_witness shows what goes wrong with them (MarketStream::init hands buffered outputs out BEFORE the snapshots)",
@@ -94,6 +119,9 @@ def signature(ops, k, key, impl_line, spec_line):
     kind = op[0] + (":" + op[1] if op[0] == "f" and len(op) > 1 else "")
     if key.startswith("book"):
         clause = "book_differs_from_venue_at_reported_sequence"
+    elif key.startswith("lv"):
+        # depth-limited snapshot: the per-level claim at a covered / written / venue-changed price
+        clause = "level_differs_from_venue_at_reported_sequence"
     elif key == "notices":
         want, got = spec_line.split()[-1], impl_line.split()[-1]
         clause = "break_or_end_not_reported" if want > got else "false_alarm"
@@ -111,7 +139,8 @@ TECHNIQUE = ("Lean 4: composition of the existing models (ExchangeStream poll lo
              "label/decode round trip for C12's Nat-valued streams; a state machine over connections (C06's Conn) proved equal to the specification's books, carrying C06's "
              "coupling invariant (ConnSynced) across frames, breaks, socket ends, failed and successful re-initialisations; frame-insertion congruences; correspondence with "
              "the real pipeline run in-process on every input prefix")
-LEVEL_TEXT = ("Proof (sub-check of C06). lean/BarterModel/Props/C06E.lean, 31 theorems, none _partial, all for both rule sets, every deserialiser, instrument map, policy, "
+LEVEL_TEXT = ("Proof (sub-check of C06). lean/BarterModel/Props/C06E.lean, 42 theorems (38 results; enough_mono, exSnapshot_genuine, failing_frames and "
+              "contract_is_on_everything are bookkeeping: monotonicity of the fuel bound, an evaluated example, the parser's table restated, an unfolding), none _partial, all for both rule sets, every deserialiser, instrument map, policy, "
               "initial books and for ALL connection lists and frame lists (Text / Binary / Ping / Pong / Frame / Close / transport error): (1) factorisation - "
               "connection_hands_out_its_items (C12W), labels_read_back (C12 labelling is faithful), pipeline_refines_spec (the composition of the four models = the specification: "
               "events the manager receives, handler calls, books, status), fuel_irrelevant, pipeline_factorises (events = per connection the delivered market events, then one "
@@ -121,12 +150,23 @@ LEVEL_TEXT = ("Proof (sub-check of C06). lean/BarterModel/Props/C06E.lean, 31 th
               "applied - and when no connection is delivering the last event the consumer received is Reconnecting), every_book_is_venue_truth, every_book_is_spec_book (with zero-free snapshots the book is literally specBook venue last, the value the spec driver prints), state_knows_subscriptions, "
               "live_connection_is_current, stale_window (a breaking frame adds exactly one Reconnecting and changes no book and no handler call, for EVERY continuation of the "
               "socket: nothing after the break is read; the window lasts until the next connection that comes up); (3) housekeeping_invisible (deleting a Ping / Pong / raw Frame "
-              "anywhere changes nothing at all), failed_frames_change_no_book + failed_frame_goes_to_handler + failing_frames (undeserialisable payload / Close / transport error: "
-              "one Socket error to the handler, events / books / status unchanged; none of them ends a connection); (4) subscriptions_are_fixed, "
+              "anywhere changes nothing at all), failed_frames_change_no_book (undeserialisable payload / Close / transport error: events / books / status are those of the input "
+              "without the frame; none of them ends a connection) + failed_frame_goes_to_handler (a LIST-LEVEL lemma about the delivered items of one connection: the error "
+              "is handed over after the errors of the frames before it unless a terminal error came earlier; there is no separate pipeline-level statement about `handled` for "
+              "such a frame - it follows through pipeline_refines_spec only); (4) subscriptions_are_fixed, "
               "unsubscribed_symbol_contribution, unsubscribed_symbol_changes_no_book (one non-terminal Unidentifiable to the handler, no book changes); (5) reinit_replaces_books "
               "(right after a connection came up the book of every key it brought a snapshot for IS that snapshot, whatever earlier connections left), truth_after_reinit (the "
               "guarantee needs the contract only from the last successful initialisation on); frameKind_agrees and oracle_verdict_agrees (the oracle's frame classification is the parser's, its id-only verdict `told` is exactly the death of the connection), books_are_manager_cells (C05M's manager with time stamps and shared cells, fed the pipeline's events with any time stamps, holds the pipeline's books); "
-              "buffered_update_before_snapshot_witness (why the contract excludes buffered messages). The oracle recomputes every constrained book from the simulated venue, never "
+              "buffered_update_before_snapshot_witness (why the contract excludes buffered messages); (6) after the review of the sub-checks, REST snapshots of LIMITED depth "
+              "(the code asks for limit=100): fresh_connection_synced_on, pipeline_book_is_truth_on (under ContractOn - snapshots right on the prices they cover - for all "
+              "inputs: books = state machine's; every subscribed instrument's book holds, at every price the CURRENT connection's snapshot covers or the venue changed since "
+              "that snapshot's id, the venue's amount as of the id its sequencer last admitted, also after a break; or the consumer has been told), "
+              "every_book_is_venue_truth_on (spelled out per instrument), current_snapshots_of_last_connection (which snapshots are 'current'), "
+              "truncated_snapshot_pipeline_witness (with a depth-limited snapshot the full-book conclusion fails silently: ContractOn holds, Contract does not); (7) REST "
+              "snapshots listing a price twice: books_follow_the_code_search / pipeline_cells_follow_the_code_search (the manager's cells run with the code's binary search "
+              "are the pipeline model's books whenever every snapshot side is strictly ordered), repeated_price_snapshot_witness (the excluded point: model 100:2, code "
+              "100:1); (8) the executable oracle's counters: oracle_frames_refine_spec, oracle_connection_refines_spec (`notices` and `nerr` per connection are the "
+              "specification's). The oracle recomputes every constrained book from the simulated venue, never "
               "from the frames, and counts notices and handler calls from ids alone. Self-test: 5 hand-written changes of the pipeline's code (mutants/C06E_*.patch: manager stops on Reconnecting, no "
               "termination on error, Close made terminal, notice chained before the items, manager refusing older snapshots) are each reported with a concrete violating "
               "input, as are the four seeded C06 changes (seeded/C06a-d); a 6th change (snapshots put before the buffered outputs inside MarketStream::init, whose statement "
@@ -135,5 +175,18 @@ LEVEL_NOTE = ("Trusted: Lean kernel; axioms propext/Classical.choice/Quot.sound 
               "composition itself, tied by sampled correspondence with the real pipeline (300 quick / 5 000 random + 1 640 enumerated thorough, every op = one full pipeline run); "
               "harness (mirrors the bodies of three functions that open sockets, guarded by a source tripwire), driver glue, orchestrator. Hypotheses of the truth theorems: the "
               "venue contract incl. nothing buffered before the snapshots (true for Binance since expected_responses = 1; the latent hazard otherwise is exhibited as a theorem), "
-              "distinct instrument keys, a managed book per subscribed key. The books' readers (other holders of the Arc<RwLock<OrderBook>>) are NOT told about a break: "
+              "distinct instrument keys, a managed book per subscribed key. Snapshot depth: with the limit=100 snapshots of the real wiring 'book = venue book' is decided PER PRICE "
+              "LEVEL (covered by the current snapshot or changed by the venue since - pipeline_book_is_truth_on), not for the whole book; truth_after_reinit and "
+              "every_book_is_spec_book have no partial-depth form (left: they need the state machine's ghost carried through runConns_append / a canonical-form argument on "
+              "price sets). Which oracle keys rest on theorems: `book<k>` = specBook venue last (every_book_is_spec_book + oracle_verdict_agrees + frameKind_agrees), "
+              "`lv<k>:...` = the venue's amount at a known price (C06 level_oracle_sound: the executable test knownPrice and the printed value are consequences of "
+              "book_is_truth_on; lifted by pipeline_book_is_truth_on). `notices` / `nerr` are tied PER CONNECTION: oracle_frames_refine_spec (all frame lists of a live connection whose transformer the oracle tracks) and "
+              "oracle_connection_refines_spec (a connection that comes up, nothing buffered, on an oracle that is not live / not blocked: live iff not over, one more "
+              "notice iff over, `nerr` grows by the errors among the delivered items - the very terms specStream / specHandled add). TEST-ONLY (written from the "
+              "documentation, in no theorem, checked by running against the real pipeline only): the key `fin`; the composition of the oracle over SEVERAL connections "
+              "(failed inits, connections prepared while one is open: `blocked`); the buffered phase (bufferedPhase); the `constrained` bookkeeping that decides where the "
+              "oracle speaks about books. The model's `book` / `lv` lines are the manager's cells with the code's binary search (Result.booksBS), equal to the "
+              "pipeline model's books for strictly ordered snapshots. `hc : forall c in conns, Contract` also constrains connections that are never reached (stronger than "
+              "needed, harmless). Number glue: u64 ids >= 2^64 are `bad-op` in the harness and naturals in the model; Decimals beyond 28 digits round in the harness only. "
+              "The books' readers (other holders of the Arc<RwLock<OrderBook>>) are NOT told about a break: "
               "OrderBookL2Manager swallows Reconnecting with a log line - the theorems speak about what the manager's stream yields.")
